@@ -126,14 +126,26 @@ func (m MapSchema[K, V]) Unserialize(data any) (any, error) {
 		if err != nil {
 			return nil, ConstraintErrorAddPathSegment(err, fmt.Sprintf("[%v]", k.Interface()))
 		}
-		typedKey := reflect.ValueOf(unserializedKey)
+		typedKey, typedValue := reflect.ValueOf(unserializedKey), reflect.ValueOf(unserializedValue)
+		if !typedKey.Type().AssignableTo(t.Key()) {
+			return nil, ConstraintErrorAddPathSegment(&ConstraintError{
+				Message: fmt.Sprintf("%T cannot be used as a map key of type %s", unserializedKey, t.Key().String()),
+			}, fmt.Sprintf("{%v}", k.Interface()))
+		}
+		if !typedValue.Type().AssignableTo(t.Elem()) {
+			// The value type did not keep to what it declares as its reflected type (a one-of over a Go interface that one
+			// of its members does not implement).
+			return nil, ConstraintErrorAddPathSegment(&ConstraintError{
+				Message: fmt.Sprintf("%T cannot be used as a map value of type %s", unserializedValue, t.Elem().String()),
+			}, fmt.Sprintf("[%v]", k.Interface()))
+		}
 		if result.MapIndex(typedKey).IsValid() {
 			// Two raw keys (e.g. 1 and "1") denote the same key: which entry survives would depend on the iteration order.
 			return nil, ConstraintErrorAddPathSegment(&ConstraintError{
 				Message: fmt.Sprintf("Duplicate key %v after conversion", unserializedKey),
 			}, fmt.Sprintf("{%v}", k.Interface()))
 		}
-		result.SetMapIndex(typedKey, reflect.ValueOf(unserializedValue))
+		result.SetMapIndex(typedKey, typedValue)
 	}
 	return result.Interface(), nil
 }
